@@ -65,7 +65,7 @@ func checkRange1(orig, w []uint64, i, end int32) *vk.Failure {
 			return vk.Failf("nextone", "NextOne(bm, %d, %d) = %d, want %d", i, end, got, want)
 		}
 	}
-	if end >= 1 {
+	if end >= 1 && i < nbits { // (i == end == 64*len: i is not inside the bitmap; an implementation may index with it)
 		want := naivePrev(orig, i, end)
 		var got int32
 		if f := vk.Try(fmt.Sprintf("PrevOne(i=%d,end=%d)", i, end), func() { got = bitmap.PrevOne(w, i, end) }); f != nil {
